@@ -394,7 +394,7 @@ c13t!(c13_typed_drop_unsync_pess, unsync::Arena, Pessimistic, DropBorrowed);
 c13t!(c13_typed_owned_sync_opt, sync::Arena, Optimistic, DropOwned);
 // @h props=C13 tier=thorough timeout=1800 bounds=CAP=96,T=Counted(u64)+Drop
 c13t!(c13_typed_detached_sync_pess, sync::Arena, Pessimistic, Detached);
-// @h props=C13 tier=thorough timeout=1800 bounds=CAP=96,T=Counted(u64)+Drop
+// @h props=C13 tier=quick timeout=1800 bounds=CAP=96,T=Counted(u64)+Drop,detached-owned
 c13t!(c13_typed_detached_owned_unsync_opt, unsync::Arena, Optimistic, DetachedOwned);
 
 /// refs() == number of live arena values (clones + the clone inside each owned handle); the
